@@ -14,7 +14,7 @@ import random
 import re
 from pathlib import Path
 
-from common import (Ctx, MachineryError, SPEC, coverage_zero_actions, finish, import_naunet, parse_tla, quiet,
+from common import (Ctx, MachineryError, REPO, SPEC, coverage_zero_actions, finish, import_naunet, parse_tla, quiet,
                     require_clean_mc, run_tlc, validate_traces)
 import netrec
 
@@ -390,6 +390,25 @@ def main(ctx: Ctx) -> int:
     finally:
         netrec.stop()
     harvest(rec, "duplicate lists")
+    if not ctx.quick:
+        # the repository's own network tests, run under the recorder: every Network they build becomes a validated trace
+        import pytest
+        from naunet.species import Species
+        cwd = os.getcwd()
+        rec = netrec.start()
+        try:
+            os.chdir(REPO)
+            with quiet():
+                pytest.main(["-q", "-p", "no:cacheprovider", "-x", "--no-header", "tests/test_network.py", "-k", "not export and not generate"])
+        except BaseException as e:   # noqa
+            ctx.notes.append(f"pytest under the recorder ended with {type(e).__name__}")
+        finally:
+            netrec.stop()
+            os.chdir(cwd)
+            Species.reset()
+        before = len(traces)
+        harvest(rec, "repository tests")
+        cov["traces_from_repository_tests"] = len(traces) - before
     if pid == "C14":
         ext = extend_runs(ctx, rng, 8 if ctx.quick else 60)
         bad = [e for e in ext if e["err"]]
